@@ -1246,5 +1246,5 @@ Proof.
 Qed.
 
 Lemma polls_are_schedules : forall v w0 ops polls,
-  exists sched, run_polls (handle v) is_sync poll_fuel (start v w0 ops) polls = prun v (start v w0 ops) sched.
-Proof. intros. apply run_polls_is_run. Qed.
+  exists sched, fold_left (ppoll v) polls (start v w0 ops) = prun v (start v w0 ops) sched.
+Proof. intros. apply (run_polls_p_is_run (handle v) is_sync poll_bound). Qed.
